@@ -2,8 +2,12 @@
 internal/queue, writer.go, internal/dissolve, internal/bpool through harness/writer + overlay/writer.
 (docstring completed at the end of the file's development: see MUTATIONS below)"""
 import json
+import os
 
 from lib import vf
+
+# development aid (mutation testing): skip the exhaustive design runs, which do not depend on the code under test
+_FAST = os.environ.get('VERIF_WRITER_FAST') == '1'
 
 
 # ------------------------------------------------------------------------------------------------ C12
@@ -55,11 +59,12 @@ def _validate_traces(c, family, module, cfg, traces, on_reject, reset=None, time
 def c12(c):
     quick = c.tier == 'quick'
     # 1. design: the concrete ring refines the FIFO (exhaustive), the writer over the FIFO delivers exactly
-    r = c.tlc_exhaustive('Writer', 'Ring', 'ring_quick.cfg' if quick else 'ring_thorough.cfg', workers=8, timeout=1500)
-    c.log('Ring: %d distinct / %d generated states' % (r['distinct'], r['states']))
-    r = c.tlc_exhaustive('Writer', 'Writer', 'writer_quick.cfg' if quick else 'writer_thorough.cfg', workers=8, timeout=2400)
-    c.log('Writer: %d distinct / %d generated states, depth %d' % (r['distinct'], r['states'], r['depth']))
-    if not quick:
+    if not _FAST:
+        r = c.tlc_exhaustive('Writer', 'Ring', 'ring_quick.cfg' if quick else 'ring_thorough.cfg', workers=8, timeout=1500)
+        c.log('Ring: %d distinct / %d generated states' % (r['distinct'], r['states']))
+        r = c.tlc_exhaustive('Writer', 'Writer', 'writer_quick.cfg' if quick else 'writer_thorough.cfg', workers=8, timeout=2400)
+        c.log('Writer: %d distinct / %d generated states, depth %d' % (r['distinct'], r['states'], r['depth']))
+    if not quick and not _FAST:
         r = c.tlc_exhaustive('Writer', 'Writer', 'writer_live.cfg', workers=8, timeout=2400)
         c.log('Writer liveness (FairSpec): %d distinct states' % r['distinct'])
     binp = c.go_build('writer')
